@@ -2,7 +2,8 @@
 from plib import *
 from props.common import ProgRunner, parse
 
-LEAN_TARGETS = ["Plonk.Props.C07"]
+EXTRA_AUDITS = ["ComposerTie"]
+LEAN_TARGETS = ["Plonk.Props.C07", "Plonk.Props.ComposerTie"]
 PROFILE = "checked"          # debug assertions + overflow checks: panics must show
 ASSUMPTIONS = ["the Rust allocator does not abort on the (small) circuits generated here"]
 THEOREMS_NOTE = "Plonk/Props/C07.lean"
